@@ -336,7 +336,7 @@ class Interp:
             if isinstance(v, ast.Constant):
                 parts.append(v.value)
             elif isinstance(v, ast.FormattedValue):
-                parts.append(self.format_value(self.ev(v.value, env)))
+                parts.append(self.e_FormattedValue(v, env))      # honours !r and format specifications
             else:
                 raise Unsupported("f-string part")
         return self._mkstr_ite(parts)
@@ -373,7 +373,33 @@ class Interp:
         return SegStr([OpaqueHole(x, prov_of(x))])
 
     def e_FormattedValue(self, e, env):
-        return self.format_value(self.ev(e.value, env))
+        v = self.ev(e.value, env)
+        if e.conversion not in (-1, 115):          # !r / !a change the text (quotes, escapes)
+            if e.conversion == 114 and isinstance(v, str) and e.format_spec is None:
+                return repr(v)
+            if e.conversion == 114 and (is_num(v) and not isinstance(v, bool)) and e.format_spec is None:
+                return self.format_value(v)
+            raise Unsupported("f-string conversion on a symbolic value")
+        if e.format_spec is None:
+            return self.format_value(v)
+        spec_ = self.ev(e.format_spec, env)
+        if not isinstance(spec_, str):
+            raise Unsupported("symbolic format specification")
+        if spec_ == '':
+            return self.format_value(v)
+        import re as _re
+        m = _re.fullmatch(r'(?:\.(\d+))?f', spec_)
+        if m and is_num(v) and not isinstance(v, bool):
+            # fixed-point notation keeps p decimals (6 by default): the text denotes the value ROUNDED to p decimals
+            from .builtins_ import round_value
+            p = int(m.group(1)) if m.group(1) is not None else 6
+            r = round_value(self, real(v) if is_symnum(v) else Fraction(v), p, e)
+            return SegStr([NumHole(r)])
+        if isinstance(v, (str, SegStr)) and spec_ in ('s',):
+            return v
+        if isinstance(v, int) and not isinstance(v, bool) and spec_ == 'd':
+            return str(v)
+        raise Unsupported(f"format specification {spec_!r}")
 
     def e_Lambda(self, e, env):
         return LambdaV(e, env, f"<lambda@{e.lineno}>")
@@ -639,6 +665,9 @@ class Interp:
                 return r
             return z3.Not(r) if is_symbool(r) else (not r)
         # ordering
+        from .npmodel import NpArr
+        if isinstance(a, NpArr) or isinstance(b, NpArr):
+            return NpArr.compare(self, op, a, b, node)
         if isinstance(a, IteV):
             return z3.If(a.cond, boolz(self.compare(op, a.a, b, node)), boolz(self.compare(op, a.b, b, node)))
         if isinstance(b, IteV):
